@@ -154,6 +154,15 @@ def process_top(job):
                         rr['confirms'] = True
                         w['replay'] = rr
                 e['witnesses'].append(w)
+        if str(out.get('note') or '').startswith('bounded('):
+            # an entry labelled `bounded(k)` in its note is a bounded stand-in: its obligations are reported under
+            # `bounded` and never counted as discharged (a refuted one is still a violation)
+            nb = 0
+            for e in out['names'].values():
+                if not e['expect_sat']:
+                    e['kind'] = 'bounded'
+                    nb += e['n']
+            out['bounded'].append({'entry': key, 'note': out['note'], 'obligations': nb, 'all_proved': all(e['proved'] == e['n'] for e in out['names'].values())})
     except Exception:
         out['error'] = traceback.format_exc()
     out['wall_s'] = time.time() - t0
@@ -314,7 +323,7 @@ def main():
             if e.get('disagree'):
                 errors.append(f'{name}: solvers disagree: {e["details"]}')
                 continue
-            if e.get('kind') == 'bounded' and not e['refuted']:
+            if e.get('kind') == 'bounded' and not e['refuted'] and not e['unknown'] and not e.get('vacuous'):
                 continue  # bounded stand-ins are reported under `bounded`, never counted as discharged
             if e['refuted']:
                 # triage by replay
